@@ -396,57 +396,62 @@ Fixpoint hk_resolve_snaps (hc : hcase) (l : list (bytes * list bytes)) : option 
                      end
   end.
 
-(* the context the documentation describes for the event, given the objects behind the item *)
+(* the contexts the documentation describes for the event, given the objects behind the item.
+   A conversion request is for a CRD and the rule the chain resolved it to: the context is the
+   Conversion context of a conversion binding of that CRD that declares this rule, with
+   fromVersion/toVersion of THAT rule (one candidate per such binding) *)
 Definition hk_expected (hc : hcase) (ev : hevent) (ids : list bytes) (snaps : list (bytes * list item))
-  : option ctx :=
+  : list ctx :=
   match ev with
   | HSync name =>
       match kube_named name (hk_kube hc) with
       | Some (b, _) =>
           match resolve (hk_alive hc name) ids with
-          | Some objs => Some (mkCtx BKube (b_jq b) (b_incl b) false (b_group b) (b_name b) KSync WNone
-                                     (map (spec_item b) objs) snaps None None [] [])
-          | None => None
+          | Some objs => [mkCtx BKube (b_jq b) (b_incl b) false (b_group b) (b_name b) KSync WNone
+                                (map (spec_item b) objs) snaps None None [] []]
+          | None => []
           end
-      | None => None
+      | None => []
       end
   | HWatch name t w =>
       match kube_named name (hk_kube hc) with
       | Some (b, _) =>
           if list_eqb bytes_eqb ids [w_id w]
-          then Some (mkCtx BKube (b_jq b) (b_incl b) false (b_group b) (b_name b) KEvent t
-                           [spec_item b w] snaps None None [] [])
-          else None
-      | None => None
+          then [mkCtx BKube (b_jq b) (b_incl b) false (b_group b) (b_name b) KEvent t
+                      [spec_item b w] snaps None None [] []]
+          else []
+      | None => []
       end
-  | HOther k review from to =>
+  | HOther k review =>
       match nth_error (hk_other hc) k, ids with
       | Some o, [] =>
           match ob_type o with
-          | BSchedule => Some (mkCtx BSchedule false (ob_incl o) false (ob_group o) (ob_name o) KEmpty WNone
-                                     [] snaps None None [] [])
+          | BSchedule => [mkCtx BSchedule false (ob_incl o) false (ob_group o) (ob_name o) KEmpty WNone
+                                [] snaps None None [] []]
           | BValidating | BMutating =>
-              Some (mkCtx (ob_type o) false (ob_incl o) false (ob_group o) (ob_name o) KEmpty WNone
-                          [] snaps (Some review) None [] [])
-          | BConversion =>
-              Some (mkCtx BConversion false (ob_incl o) false (ob_group o) (ob_name o) KEmpty WNone
-                          [] snaps None (Some review) from to)
-          | _ => None
+              [mkCtx (ob_type o) false (ob_incl o) false (ob_group o) (ob_name o) KEmpty WNone
+                     [] snaps (Some review) None [] []]
+          | _ => []
           end
-      | _, _ => None
+      | _, _ => []
+      end
+  | HConv crd review from to =>
+      match ids with
+      | [] => map (fun o => mkCtx BConversion false (ob_incl o) false (ob_group o) (ob_name o) KEmpty WNone
+                                  [] snaps None (Some review) from to)
+                  (filter (conv_match crd from to) (hk_other hc))
+      | _ => []
       end
   end.
 
 Definition P_hook_item (hc : hcase) (it : hitem) (j : json) : bool :=
   match nth_error (hk_evs hc) (N.to_nat (hi_ev it)), hk_resolve_snaps hc (hi_snaps it) with
   | Some ev, Some snaps =>
-      match hk_expected hc ev (hi_ids it) snaps with
-      | Some c =>
-          (* one array per name the item's own binding includes *)
-          list_eqb bytes_eqb (map fst (hi_snaps it)) (canon_names (c_incl c))
-          && wf1 c && P_item V1 c j
-      | None => false
-      end
+      existsb (fun c =>
+                 (* one array per name the item's own binding includes *)
+                 list_eqb bytes_eqb (map fst (hi_snaps it)) (canon_names (c_incl c))
+                 && wf1 c && P_item V1 c j)
+              (hk_expected hc ev (hi_ids it) snaps)
   | _, _ => false
   end.
 
@@ -475,17 +480,21 @@ Definition T_hook (hc : hcase) : bool :=
 Definition okey_eqb (a b : obind) : bool :=
   btype_eqb (ob_type a) (ob_type b) && bytes_eqb (ob_name a) (ob_name b).
 
+Definition first_namesake_differs (hc : hcase) (o : obind) : bool :=
+  match find (okey_eqb o) (hk_other hc) with
+  | Some o' => negb (list_eqb bytes_eqb (canon_names (ob_incl o')) (canon_names (ob_incl o)))
+  | None => false
+  end.
+
 Definition T_same_type_name (hc : hcase) : bool :=
   existsb (fun ev => match ev with
-                     | HOther k _ _ _ =>
+                     | HOther k _ =>
                          match nth_error (hk_other hc) k with
-                         | Some o => match find (okey_eqb o) (hk_other hc) with
-                                     | Some o' => negb (list_eqb bytes_eqb (canon_names (ob_incl o'))
-                                                                 (canon_names (ob_incl o)))
-                                     | None => false
-                                     end
+                         | Some o => first_namesake_differs hc o
                          | None => false
                          end
+                     | HConv crd _ from to =>
+                         existsb (fun o => conv_match crd from to o && first_namesake_differs hc o) (hk_other hc)
                      | _ => false
                      end) (hk_evs hc).
 
@@ -493,11 +502,13 @@ Definition T_same_type_name (hc : hcase) : bool :=
    id: the admission event of one of them is answered with the link of the other *)
 Definition obind_eqb (a b : obind) : bool :=
   btype_eqb (ob_type a) (ob_type b) && bytes_eqb (ob_name a) (ob_name b)
-  && list_eqb bytes_eqb (ob_incl a) (ob_incl b) && bytes_eqb (ob_group a) (ob_group b).
+  && list_eqb bytes_eqb (ob_incl a) (ob_incl b) && bytes_eqb (ob_group a) (ob_group b)
+  && bytes_eqb (ob_crd a) (ob_crd b)
+  && list_eqb (pair_eqb bytes_eqb bytes_eqb) (ob_rules a) (ob_rules b).
 
 Definition T_admission_same_name (hc : hcase) : bool :=
   existsb (fun ev => match ev with
-                     | HOther k _ _ _ =>
+                     | HOther k _ =>
                          match nth_error (hk_other hc) k with
                          | Some o => is_adm (ob_type o) && negb (obind_eqb (adm_link hc o) o)
                          | None => false
